@@ -1,0 +1,69 @@
+//go:build verif
+
+// Machine-checked contracts for this package (guard: build tag `verif`; this file contains comments only).
+// Read by /verif/bin/govc: each `//@ unit` section is one verification unit (the functions matching `filter`,
+// verified against the contracts of the section; callees are used through their contracts only).
+
+package fastcgi
+
+//@ unit fcgi_records props=C13,C19 filter=`streamWriter\)\.(Write|Close)$|FCGIClient\)\.(writeBeginRequest|writeEndRequest|writePairs)$|record\)\.read$|fastcgi\.(encodeSize|header\)\.init)$`
+//@ func (*FCGIClient).writeRecord
+//@   requires [len_fits] len(content) <= 65535
+
+//@ func (*streamWriter).Write
+//@   requires w != nil
+//@   ensures [all_or_error] result1 == nil ==> result0 == len(old(p))
+//@   loop 1 invariant 0 <= nn && nn + len(p) == len(old(p)) && p == old(p)[nn:]
+//@   loop 1 decreases len(p)
+
+//@ func (*streamWriter).Close
+//@   requires w != nil
+
+//@ func (*FCGIClient).writeBeginRequest
+//@ func (*FCGIClient).writeEndRequest
+
+//@ func (*record).read
+//@   requires rec != nil
+//@   ensures [bounds] err == nil ==> len(buf) == int(rec.h.ContentLength)
+
+//@ extern errors.New
+//@   ensures result != nil
+//@ invariant io.EOF != nil
+//@ func encodeSize
+//@   requires (size <= 127 && len(b) >= 1) || len(b) >= 4
+//@   requires size < 2147483648
+//@   modifies E:uint8
+//@   ensures [arity] (result == 1 || result == 4) && ((result == 1) == (size <= 127))
+//@   ensures [roundtrip] decodeSize(b) == int(old(size))
+//@ func (*FCGIClient).writePairs
+//@   requires c != nil
+
+//@ func (*header).init
+//@   requires h != nil && 0 <= contentLength && contentLength <= 65535
+//@   modifies header.Version, header.Type, header.ID, header.ContentLength, header.PaddingLength
+//@   ensures [fields] h.Version == 1 && h.Type == recType && h.ID == reqID
+//@   ensures [len] int(h.ContentLength) == contentLength
+//@   ensures [pad] h.PaddingLength < 8 && (contentLength + int(h.PaddingLength)) % 8 == 0
+
+//@ extern (encoding/binary.bigEndian).PutUint32
+//@   requires [room] len(b) >= 4
+//@   modifies E:uint8
+//@   ensures int(b[0]) == int(v) / 16777216 && int(b[1]) == (int(v) / 65536) % 256 && int(b[2]) == (int(v) / 256) % 256 && int(b[3]) == int(v) % 256
+
+//@ define decodeSize(b []byte) int = decode1(int(b[0]), int(b[1]), int(b[2]), int(b[3]))
+//@ spec decode1(b0 int, b1 int, b2 int, b3 int) int
+//@ axiom (b0 int, b1 int, b2 int, b3 int) (0 <= b0 && b0 < 128) ==> decode1(b0, b1, b2, b3) == b0
+//@ axiom (b0 int, b1 int, b2 int, b3 int) (128 <= b0 && b0 < 256) ==> decode1(b0, b1, b2, b3) == (b0 - 128) * 16777216 + b1 * 65536 + b2 * 256 + b3
+
+//@ unit stream_reader props=C13,C19 filter=`fastcgi\.streamReader\)\.Read$`
+//@ func (*record).read
+//@   requires rec != nil
+//@   modifies record.h, record.rbuf, E:uint8
+//@   ensures err == nil ==> len(buf) == int(rec.h.ContentLength)
+
+//@ func (*streamReader).Read
+//@   requires w != nil && w.c != nil && w.c.stderr != nil
+//@   modifies streamReader.buf, E:uint8, record.h, record.rbuf
+//@   ensures [count_in_range] 0 <= n && n <= len(p)
+//@   ensures [no_invented_bytes] (err == nil && len(old(w.buf)) > 0) ==> (n <= len(old(w.buf)) && len(w.buf) == len(old(w.buf)) - n)
+//@   ensures [error_reads_nothing] err != nil ==> n == 0
